@@ -319,12 +319,13 @@ Proof.
       rewrite E2. rewrite <- app_assoc. eexists. reflexivity.
 Qed.
 
-Lemma data_roundtrip E schemas roles idx trg tables rest :
+Lemma tables_roundtrip E schemas roles idx trg tables rest :
   NoDup (map t_name tables) -> Forall (table_ok E) tables ->
-  exists tr, read_data E (mkDb schemas roles (map strip tables) idx trg) (flat_map write_table_data tables ++ rest)
+  exists tr, iter (Z.of_nat (length (map strip tables))) (read_table_data E)
+               (mkDb schemas roles (map strip tables) idx trg) (flat_map write_table_data tables ++ rest)
              = (tr, Ok (mkDb schemas roles tables idx trg) rest).
 Proof.
-  intros Hnd Hok. unfold read_data, iter. cbn [d_tables]. rewrite map_length.
+  intros Hnd Hok. unfold iter. rewrite map_length.
   apply (data_fuel_roundtrip E schemas roles idx trg tables [] _ rest Hnd Hok).
   rewrite app_length.
   pose proof (flat_map_length_ge write_table_data (fun _ => True) tables
@@ -598,18 +599,61 @@ Proof.
   cbn [d_schemas d_roles d_tables d_indexes]. eexists. reflexivity.
 Qed.
 
-(** the loaded database: everything back, index contents empty *)
+(** ** the final index rebuild *)
+Lemma rebuild_index_tables s r ts a g s' r' a' g' i :
+  rebuild_index (mkDb s r ts a g) i = rebuild_index (mkDb s' r' ts a' g') i.
+Proof. reflexivity. Qed.
+
+Lemma rebuild_all_tables s r ts a g s' r' a' g' l :
+  rebuild_all (mkDb s r ts a g) l = rebuild_all (mkDb s' r' ts a' g') l.
+Proof.
+  induction l as [|i l IH]; cbn [rebuild_all]; [reflexivity|].
+  rewrite (rebuild_index_tables s r ts a g s' r' a' g' i), IH. reflexivity.
+Qed.
+
+Lemma rebuild_all_clear d l : rebuild_all d (map clear l) = rebuild_all d l.
+Proof. induction l as [|i l IH]; cbn [map rebuild_all]; [reflexivity|]. rewrite IH. reflexivity. Qed.
+
+(** resolvable index definitions are rebuilt successfully *)
+Lemma rebuild_all_ok d l :
+  Forall (index_sem_ok (d_tables d)) l -> exists l', rebuild_all d l = Ok l' [].
+Proof.
+  induction l as [|i l IH]; intros H; cbn [rebuild_all]; [eexists; reflexivity|].
+  inversion H as [|? ? Hi Hl]; subst. destruct Hi as (_ & _ & ti & t & idxs & Hti & Hnth & Hc).
+  destruct (IH Hl) as [l' El].
+  unfold rebuild_index.
+  assert (Hti' : index_table_idx d (i_table i) = Some ti).
+  { destruct d. exact Hti. }
+  rewrite Hti', Hnth, Hc, El. eexists. reflexivity.
+Qed.
+
+(** the loaded database: everything back -- schemas, roles, tables, columns, types, nullability, rows
+    bit for bit and in order, index definitions, and the index contents rebuilt from the rows *)
 Theorem file_roundtrip E d extra :
-  wf_db E d -> load_result E (save_binary d ++ extra) = Ok (clear_entries d) extra.
+  wf_db E d -> load_result E (save_binary d ++ extra) = Ok (with_indexes_built d) extra.
 Proof.
   intros W. unfold load_result, load_binary, save_binary. rewrite <- !app_assoc.
   rewrite (snd_bind_ok _ _ _ _ _ _ (read_header_ok _)).
   destruct (catalog_roundtrip E d (write_data d ++ extra) W) as [t1 E1].
   rewrite (snd_bind_ok _ _ _ _ _ _ E1).
-  destruct (data_roundtrip E (d_schemas d) (d_roles d) (map clear (d_indexes d)) [] (d_tables d) extra
+  destruct (tables_roundtrip E (d_schemas d) (d_roles d) (map clear (d_indexes d)) [] (d_tables d) extra
               (w_tab_nd _ _ W) (w_tab_ok _ _ W)) as [t2 E2].
-  unfold write_data. rewrite E2. cbn [snd]. unfold clear_entries. rewrite (w_trig _ _ W). reflexivity.
+  unfold write_data, read_data. cbn [d_tables].
+  rewrite (snd_bind_ok _ _ _ _ _ _ E2).
+  destruct (rebuild_all_ok d (d_indexes d) (w_idx_sem _ _ W)) as [l' El].
+  unfold with_indexes_built, rebuild_indexes. cbn [d_indexes d_schemas d_roles d_tables d_triggers].
+  rewrite rebuild_all_clear.
+  rewrite (rebuild_all_tables (d_schemas d) (d_roles d) (d_tables d) (map clear (d_indexes d)) []
+             (d_schemas d) (d_roles d) (d_indexes d) (d_triggers d)).
+  assert (Ed : mkDb (d_schemas d) (d_roles d) (d_tables d) (d_indexes d) (d_triggers d) = d) by (destruct d; reflexivity).
+  rewrite Ed, El, (w_trig _ _ W). reflexivity.
 Qed.
+
+(** ... hence exactly the saved database when its index contents are the ones built from its rows
+    (which is what the storage layer maintains) *)
+Corollary file_roundtrip_exact E d extra :
+  wf_db E d -> with_indexes_built d = d -> load_result E (save_binary d ++ extra) = Ok d extra.
+Proof. intros W Hd. rewrite (file_roundtrip E d extra W), Hd. reflexivity. Qed.
 
 (** * the hypotheses are satisfiable: a database with an index, a VARCHAR(10) and a DATE column *)
 Definition db_example : db :=
@@ -618,7 +662,8 @@ Definition db_example : db :=
           [[BV (VInteger 1); BV (VVarchar [195; 169; 39]); BV (VDate 2024 2 29)];
            [BV (VInteger (-9223372036854775808)); BV VNull; BV VNull]] 0;
         mkTable (lit "U") [mkCol (lit "X") TDouble true] [[BV (VDouble 9221120237041090560)]; [BV (VDouble 9223372036854775808)]] 0]
-       [mkIndex (lit "IA") (lit "T") true [(lit "A", 1)] []] [].
+       [mkIndex (lit "IA") (lit "T") true [(lit "A", 1)]
+          [([BV (VInteger 1)], 0); ([BV (VInteger (-9223372036854775808))], 1)]] [].
 
 Example db_example_wf : wf_db E0 db_example.
 Proof.
@@ -644,5 +689,5 @@ Proof.
 Qed.
 
 Example db_example_roundtrip :
-  load_result E0 (save_binary db_example ++ [1; 2; 3]) = Ok (clear_entries db_example) [1; 2; 3].
-Proof. exact (file_roundtrip E0 db_example [1; 2; 3] db_example_wf). Qed.
+  load_result E0 (save_binary db_example ++ [1; 2; 3]) = Ok db_example [1; 2; 3].
+Proof. exact (file_roundtrip_exact E0 db_example [1; 2; 3] db_example_wf eq_refl). Qed.
